@@ -25,7 +25,7 @@ func init() {
 // internal/frontend/parser/tables.go from its String field ("Head : sym sym << action >> ;").
 func shippedProductions() ([][]string, error) {
 	fset := gotoken.NewFileSet()
-	f, err := goparser.ParseFile(fset, "/repo/internal/frontend/parser/tables.go", nil, 0)
+	f, err := goparser.ParseFile(fset, RepoRoot+"/internal/frontend/parser/tables.go", nil, 0)
 	if err != nil {
 		return nil, err
 	}
@@ -67,7 +67,7 @@ func shippedProductions() ([][]string, error) {
 }
 
 func (c *Ctx) frontParserTarget() (*Target, *RefLR, error) {
-	g, err := ReadSpecGrammar("/repo/spec/gocc2.ebnf")
+	g, err := ReadSpecGrammar(RepoRoot + "/spec/gocc2.ebnf")
 	if err != nil {
 		return nil, nil, err
 	}
@@ -283,7 +283,7 @@ func redirectTo(pkgPath, name string) engine.Intrinsic {
 
 // mainPipelineJobs: the real main() on ill-formed grammar files with symbolic flags.
 func mainPipelineJobs(c *Ctx) []Job {
-	tm := &Target{ModDir: "/repo", PkgDir: "/repo", PkgPath: RepoMod, PkgName: "main", Harness: []string{VerifRoot + "/harness/main/c04.go", VerifRoot + "/harness/main/c14.go"}}
+	tm := &Target{ModDir: RepoRoot, PkgDir: RepoRoot, PkgPath: RepoMod, PkgName: "main", Harness: []string{VerifRoot + "/harness/main/c04.go", VerifRoot + "/harness/main/c14.go"}}
 	exit := func(e *engine.Engine, st *engine.St, args []engine.Value, call *ssa.CallCommon) (engine.Value, bool) {
 		ill := e.ReadGlobal(st, RepoMod, "verifIllFormed").(*engine.T)
 		code := args[0].(*engine.T)
